@@ -43,6 +43,8 @@ type script struct {
 	startUp      bool
 	steps        []step
 	unspoolSleep time.Duration
+	iobuf        int  // 0: 64 bytes
+	writeErr     bool // writes after the peer closed may fail (chosen exhaustively)
 }
 
 func line() step                  { return step{kind: "line"} }
@@ -67,6 +69,9 @@ var scripts = []script{
 	{name: "S2b peer-close-then-down", startUp: true, steps: seq(s(line(), line(), ev("down"), ev("peerclose"), line(), maybe(sec(1.1)), line(), sleep(sec(5)), ev("up"), line()))},
 	// S3: two outages
 	{name: "S3 two-outages", startUp: true, steps: seq(s(line(), ev("peerclose"), line(), sleep(sec(4)), line(), ev("peerclose"), maybe(sec(0.3)), line()))},
+	// S5: tiny io buffer (every line reaches the socket at once); a write after the peer closed may be
+	// accepted and lost or fail with a broken pipe
+	{name: "S5 peer-close write-errors", startUp: true, iobuf: 8, writeErr: true, steps: seq(s(line(), ev("peerclose"), line(), line(), maybe(sec(2.5)), line()))},
 	// S4: outage while the backlog is being unspooled
 	{name: "S4 outage-while-unspooling", startUp: false, unspoolSleep: 700 * time.Millisecond,
 		steps: seq(s(line(), line(), line(), line(), ev("up"), sleep(sec(3.2)), ev("peerclose"), maybe(sec(0.4)), line()))},
@@ -81,11 +86,15 @@ type exec struct {
 }
 
 func (e *exec) Body() {
-	e.net = &destharn.Net{Up: e.sc.startUp}
+	e.net = &destharn.Net{Up: e.sc.startUp, WriteErrChoice: e.sc.writeErr}
+	iobuf := 64
+	if e.sc.iobuf > 0 {
+		iobuf = e.sc.iobuf
+	}
 	vrt.SetEnv("net", e.net)
 	vrt.SetEnv("fs", vos.NewFS())
 	d, err := destination.New("r", matcher.Matcher{}, "10.1.1.1:2003", "/spool", true, false,
-		time.Second, 2*time.Second, 4, 64, 10, 200, 2, time.Second, 0, e.sc.unspoolSleep)
+		time.Second, 2*time.Second, 4, iobuf, 10, 200, 2, time.Second, 0, e.sc.unspoolSleep)
 	if err != nil {
 		panic(err)
 	}
